@@ -140,25 +140,33 @@ pub fn deserialize_schedule(str: &str) -> Option<Schedule> {
     let str: String = str.chars().filter(|c| !c.is_whitespace()).collect();
     let bytes = hex::decode(str).ok()?;
 
-    let version = bytes[0];
+    let (&version, mut bytes) = bytes.split_first()?;
     if version != SCHEDULE_MAGIC_V2 {
         return None;
     }
-    let mut bytes = &bytes[1..];
 
     let task_id_bits = bytes.read_u64_varint().ok()? as usize;
     let schedule_len = bytes.read_u64_varint().ok()? as usize;
     let seed = bytes.read_u64_varint().ok()?;
 
+    // The serializer always writes a width between 1 and the width of a task ID
+    if task_id_bits == 0 || task_id_bits > usize::BITS as usize {
+        return None;
+    }
+
     let encoded = BitSlice::<_, Lsb0>::from_slice(bytes);
+    // Every step takes at least one bit, so a longer schedule than that must have been cut short
+    if schedule_len > encoded.len() {
+        return None;
+    }
     let mut offset = 0usize;
     let mut steps = Vec::with_capacity(schedule_len);
     while steps.len() < schedule_len {
-        if *encoded.get(offset).unwrap() {
+        if *encoded.get(offset)? {
             steps.push(ScheduleStep::Random);
             offset += 1;
         } else {
-            let tid = encoded[offset + 1..offset + 1 + task_id_bits].load::<usize>();
+            let tid = encoded.get(offset + 1..offset + 1 + task_id_bits)?.load::<usize>();
             steps.push(ScheduleStep::Task(TaskId::from(tid)));
             offset += 1 + task_id_bits;
         }
